@@ -29,7 +29,7 @@ ListedTexts(e, f) ==
     [] f = 4 -> {<<123, 34, 118, 97, 108, 117, 101, 34, 58>> \o Dec(e.v) \o <<44, 34, 110, 97, 109, 101, 34, 58, 34>>
                   \o nm \o <<34, 125>> : nm \in e.names}           \* {"value":V,"name":"NAME"}
 
-Ok(r) ==
+OkOne(r) ==
   LET T == Types[r.t]
       e == Expect(r)
       json == r.f \in {1, 4}
@@ -50,6 +50,23 @@ Ok(r) ==
                                            /\ \A j \in 1..Len(e.s) : Printable(e.s[j]) => r.o[j] = e.s[j]
        [] e.k = "listed"  -> r.rc = 0 /\ r.o \in ListedTexts(e, r.f)
 
+(* pairs: r.b is the data of a message of two fields, the first field's definition is r.ft/r.fl/r.fd and takes r.fn *)
+(* bytes, the probe field's definition is r.t/r.l/r.d; (r.rc, r.o) is the result of decoding both through one field  *)
+(* set into one output stream (r.f = 5 text, 6 JSON); (r.frc, r.fo) and (r.prc, r.po) are the results of decoding   *)
+(* each field alone.  What a field is decoded to must not depend on the field before it: each field alone conforms  *)
+(* to Codec, and the message text is composed of exactly these two texts.                                           *)
+IsPair(r) == r.f \in {5, 6}
+FirstRec(r) == [t |-> r.ft, l |-> r.fl, d |-> r.fd, v |-> 0, m |-> 1, f |-> r.f - 5, b |-> SubSeq(r.b, 1, r.fn), rc |-> r.frc, o |-> r.fo]
+ProbeRec(r) == [t |-> r.t, l |-> r.l, d |-> r.d, v |-> r.v, m |-> r.m, f |-> r.f - 5, b |-> SubSeq(r.b, r.fn + 1, Len(r.b)), rc |-> r.prc, o |-> r.po]
+EndsWith(o, x) == Len(o) >= Len(x) /\ SubSeq(o, Len(o) - Len(x) + 1, Len(o)) = x
+Infix(o, x) == \E j \in 0..(Len(o) - Len(x)) : SubSeq(o, j + 1, j + Len(x)) = x
+Composed(r) ==
+  IF r.f = 5 THEN r.o = r.fo \o <<59>> \o r.po                                   \* first;probe
+  ELSE EndsWith(r.o, r.po) /\ Infix(SubSeq(r.o, 1, Len(r.o) - Len(r.po)), r.fo)  \* JSON: both values, in this order
+OkPair(r) == /\ OkOne(FirstRec(r)) /\ OkOne(ProbeRec(r))
+             /\ IF r.frc = 0 /\ r.prc = 0 THEN r.rc = 0 /\ Composed(r) ELSE r.rc < 0
+Ok(r) == IF IsPair(r) THEN OkPair(r) ELSE OkOne(r)
+
 (* input class of a rejected record: names the specific defect classes found on the pinned tree, "-" otherwise *)
 Class(r) ==
   LET T == Types[r.t]
@@ -68,7 +85,8 @@ Class(r) ==
             ELSE "-"
        [] OTHER -> "-"
 (* kept short: TLC wraps printed values longer than a line; the driver looks the record up by its index *)
-Sig(r) == <<Expect(r).k, Class(r)>>
+Sig(r) == IF IsPair(r) THEN <<Expect(ProbeRec(r)).k, IF OkOne(FirstRec(r)) /\ OkOne(ProbeRec(r)) THEN "PAIRCTX" ELSE "-">>
+          ELSE <<Expect(r).k, Class(r)>>
 Judge == recno = 0 \/ Ok(Recs[recno]) \/ ~PrintT(<<"VF", "BAD", recno, Sig(Recs[recno])>>)
 
 -----------------------------------------------------------------------------
@@ -95,6 +113,6 @@ ASSUME Cardinality({Fams[k].at : k \in 1..Len(Fams)}) = Len(Fams)
        /\ \A k \in 1..N : \E j \in 1..Len(Fams) : k >= Fams[j].at /\ k < Fams[j].at + Fams[j].n     \* every record belongs to a family
 
 (* evidence: records for which the oracle leaves the outcome open (they are not counted as non-trivial) *)
-MayBeOpen(r) == LET T == Types[r.t] IN T.k \in {"date", "dtm", "ttm", "bits"} \/ (T.k = "num" /\ T.wide)
+MayBeOpen(r) == LET T == Types[r.t] IN ~IsPair(r) /\ (T.k \in {"date", "dtm", "ttm", "bits"} \/ (T.k = "num" /\ T.wide))
 ASSUME PrintT(<<"VF", "OPEN", Cardinality({k \in 1..N : MayBeOpen(Recs[k]) /\ Expect(Recs[k]).k = "open"})>>)
 =============================================================================
